@@ -123,6 +123,10 @@ def c14_group(d):
 PROPS["C14"] = {
     "theorems": [
         "Lace.C14.parse_integer_eq_grammar",
+        "Lace.C14.parse_command_eq_grammar",
+        "Lace.C14.parse_no_panic",
+        "Lace.C14.reader_lines_valid",
+        "Lace.C14.session_no_panic",
         "Lace.C14.split_argument_eq_split_stdin",
         "Lace.C14.read_no_panic",
         "Lace.C14.session_eq_lines",
@@ -131,6 +135,8 @@ PROPS["C14"] = {
         "Lace.C14.transport_independent_argument_only",
         "Lace.C14.separators_equivalent",
         "Lace.C14.swapSeparators_ok",
+        "Lace.C14.commandTable_unambiguous",
+        "Lace.C14.parse_offsets_in_range",
     ],
     "compare": cmp_default,
     "classify": c14_classify,
